@@ -2,7 +2,7 @@
 import re
 
 from mirlib import AnchorMissing, op_place, is_bare
-from helpers import aggregates, vexpr, field_accesses, _vexpr_def
+from helpers import aggregates, vexpr, field_accesses, _vexpr_def, edge_region, base_local, bool_branches
 import grammarflow
 import guards
 import pathsim
@@ -509,6 +509,34 @@ def r_file_text_kept_as_read(r, prog):
     r.floor(1)
 
 
+def r_point_marker_offset(r, prog):
+    """The two-character marker of an empty span straddles the reported position: it is drawn one column further left than the underline of a
+    non-empty span starting there would be. So the padding in front of the highlight has to depend on whether the span is empty - a local that
+    feeds `repeat` is assigned inside the start == end arm, or the count mentions the comparison. Padding that is the same in both cases puts
+    one of the two a column off. (Which of the two, and by how much, is arithmetic over a loop-carried count: decided by the ledger C09.4b in
+    the thorough tier only.)"""
+    f = prog.fns.get('slicec::slice_file::get_highlight')
+    if f is None:
+        raise AnchorMissing('slice_file::get_highlight')
+    reps = [c for c in f.calls() if c.name() == 'repeat' and not f.blocks[c.bb].get('cleanup')]
+    eqs = [(b, ts, fs) for b, p_, ts, fs in bool_branches(f) if p_ is not None and re.match(r'^(Eq|Ne)\((arg2,arg3|arg3,arg2)\)$', vexpr(f, {'cp': p_}))]
+    if not reps or not eqs:
+        raise AnchorMissing('the padding (repeat) / the start == end test in get_highlight')
+    count = vexpr(f, reps[0].args[-1], depth=20)
+    bl = base_local(f, reps[0].args[-1])
+    inside = False
+    for b, ts, fs in eqs:
+        for tgt in (ts, fs):
+            region = edge_region(f, b, tgt)
+            if any(lhs['l'] == bl and is_bare(lhs) and bb in region and not f.blocks[bb].get('cleanup') for bb, j, lhs, rv, st in f.assigns()):
+                inside = True
+    if inside or re.search(r'(Eq|Ne)\((arg2,arg3|arg3,arg2)\)', count):
+        r.ok('the padding in front of the highlight differs between an empty and a non-empty span')
+    else:
+        r.finding('point-marker-padding', f.span, 'get_highlight pads the highlight with %s in both cases: the marker of an empty span and the underline of a non-empty one cannot both sit at the reported column' % count[:120])
+    r.floor(1)
+
+
 def run(ctx):
     prog = ctx.prog
     ctx.run_rule('C09.1', 'T11', 'span provenance in every expanded production (path-sensitive over optional symbols)', r_span_provenance, prog, ctx.cache_dir)
@@ -518,6 +546,7 @@ def run(ctx):
     from props import c14 as _c14
     ctx.run_rule('C09.4d', 'T10', 'the source text shown under a location (of a diagnostic or of a note) is cut from the file that location names', _c14.r_snippet_from_span_file, prog)
     ctx.run_rule('C09.4c', 'T10', 'the underline starts at start.col - 1 on the first line (0 on the others) and ends at end.col - 1 on the last (the line width on the others)', r_highlight_bounds, prog)
+    ctx.run_rule('C09.4e', 'T3', 'the marker of an empty span is offset against the underline of a non-empty one', r_point_marker_offset, prog)
     ctx.run_rule('C09.4b', 'T13', 'highlight arithmetic conditions (precondition ledger)', r_snippet_arithmetic, prog)
     ctx.run_rule('C09.6', 'T1', 'locations are written by the parsers only; diagnostics and notes store the span they are given', r_locations_written_by_parsers_only, prog)
     ctx.run_rule('C09.7', 'T1', 'the text that locations are counted in is the file as read (raw_text stored as given, never rewritten)', r_file_text_kept_as_read, prog)
